@@ -3,6 +3,7 @@ package c06
 import (
 	"fmt"
 	"reflect"
+	"sort"
 	"strings"
 	"sync"
 
@@ -331,8 +332,32 @@ func key(op Op) string {
 	return "k"
 }
 
+// opReach counts, per node class, how many operations were aimed at it (both
+// on real payloads and on reference copies); flushed into the class histogram.
+var opReach struct {
+	mu sync.Mutex
+	m  map[string]int64
+}
+
+func flushOpReach(c interface{ ClassN(string, int64) }) {
+	opReach.mu.Lock()
+	defer opReach.mu.Unlock()
+	for k, v := range opReach.m {
+		c.ClassN("op-target:"+k, v)
+	}
+	opReach.m = nil
+}
+
 func mutate(rv reflect.Value, op Op, depth int) {
 	ti := infoOf(rv.Type())
+	if depth == 0 {
+		opReach.mu.Lock()
+		if opReach.m == nil {
+			opReach.m = map[string]int64{}
+		}
+		opReach.m[ti.class]++
+		opReach.mu.Unlock()
+	}
 	switch ti.class {
 	case "message":
 		mutateMessage(rv, ti, op, depth)
@@ -500,23 +525,62 @@ func mutateMessage(rv reflect.Value, ti *tinfo, op Op, depth int) {
 	panic("c06: message without setters or children: " + ti.name)
 }
 
-// genProgram draws a mutation program of 0..max steps.
-func genProgram(t *rapid.T, label string, max int) []Op {
+// siteIndex lists, per node class, the exact paths of the nodes of a payload
+// (generator side only: it lets a program aim at deep and rare nodes — a
+// bucket-count slice of a histogram point sits ten getters below the root —
+// instead of hoping that random selectors get there).
+type siteIndex struct {
+	classes []string
+	paths   map[string][][]int
+}
+
+func indexSites(root any) *siteIndex {
+	ix := &siteIndex{paths: map[string][][]int{}}
+	budget := 4000
+	var dfs func(rv reflect.Value, path []int)
+	dfs = func(rv reflect.Value, path []int) {
+		if budget <= 0 {
+			return
+		}
+		budget--
+		cl := infoOf(rv.Type()).class
+		if _, ok := ix.paths[cl]; !ok {
+			ix.classes = append(ix.classes, cl)
+		}
+		ix.paths[cl] = append(ix.paths[cl], append([]int(nil), path...))
+		n := numChildren(rv)
+		for i := 0; i < n; i++ {
+			dfs(childOf(rv, i), append(path, i))
+		}
+	}
+	dfs(reflect.ValueOf(root), nil)
+	sort.Strings(ix.classes)
+	return ix
+}
+
+// genProgram draws a mutation program of 0..max steps; ix (may be nil) is the
+// site index of the payload the program will (first) be applied to.
+func genProgram(t *rapid.T, label string, max int, ix *siteIndex) []Op {
 	n := rapid.IntRange(0, max).Draw(t, label+"#")
 	var out []Op
 	for i := 0; i < n; i++ {
-		out = append(out, genOp(t, label))
+		out = append(out, genOp(t, label, ix))
 	}
 	return out
 }
 
-func genOp(t *rapid.T, label string) Op {
-	depth := rapid.IntRange(0, 9).Draw(t, label+"-depth")
+func genOp(t *rapid.T, label string, ix *siteIndex) Op {
 	op := Op{
 		Kind: rapid.IntRange(0, 35).Draw(t, label+"-kind"),
 		N:    rapid.IntRange(0, 4095).Draw(t, label+"-n"),
 		S:    rapid.SampledFrom([]string{"a", "b", "c", "zz", "k.long.key", ""}).Draw(t, label+"-s"),
 	}
+	if ix != nil && len(ix.classes) > 0 && rapid.IntRange(0, 3).Draw(t, label+"-aimed") > 0 {
+		cl := rapid.SampledFrom(ix.classes).Draw(t, label+"-class")
+		op.Path = append([]int(nil), rapid.SampledFrom(ix.paths[cl]).Draw(t, label+"-site")...)
+		return op
+	}
+	depth := rapid.IntRange(0, 12).Draw(t, label+"-depth")
 	for i := 0; i < depth; i++ {
 		op.Path = append(op.Path, rapid.IntRange(0, 11).Draw(t, label+"-sel"))
 	}
